@@ -1,0 +1,53 @@
+//go:build verif
+// +build verif
+
+/*
+ * Copyright 2022 The Furiko Authors.
+ *
+ * Licensed under the Apache License, Version 2.0 (the "License");
+ * you may not use this file except in compliance with the License.
+ * You may obtain a copy of the License at
+ *
+ *     http://www.apache.org/licenses/LICENSE-2.0
+ *
+ * Unless required by applicable law or agreed to in writing, software
+ * distributed under the License is distributed on an "AS IS" BASIS,
+ * WITHOUT WARRANTIES OR CONDITIONS OF ANY KIND, either express or implied.
+ * See the License for the specific language governing permissions and
+ * limitations under the License.
+ */
+
+package croncontroller
+
+import (
+	"k8s.io/client-go/util/workqueue"
+
+	"github.com/furiko-io/furiko/pkg/execution/util/cronschedule"
+)
+
+// VerifSetQueue replaces the controller's workqueue. Only compiled with the
+// "verif" build tag, used by the external model-checking harness.
+func (c *Context) VerifSetQueue(queue workqueue.RateLimitingInterface) {
+	c.queue.ShutDown()
+	c.queue = queue
+}
+
+// VerifQueue returns the controller's workqueue.
+func (c *Context) VerifQueue() workqueue.RateLimitingInterface {
+	return c.queue
+}
+
+// VerifUpdatedConfigsLen returns the number of JobConfigs waiting to be flushed.
+func (c *Context) VerifUpdatedConfigsLen() int {
+	return len(c.updatedConfigs)
+}
+
+// VerifSchedule returns the worker's schedule (nil before Init).
+func (w *CronWorker) VerifSchedule() *cronschedule.Schedule {
+	return w.schedule
+}
+
+// VerifNewEnqueueHandler returns the controller's real EnqueueHandler.
+func VerifNewEnqueueHandler(ctrlContext *Context) EnqueueHandler {
+	return newEnqueueHandler(ctrlContext)
+}
